@@ -92,6 +92,7 @@ type Interp struct {
 	assertsDischarged int
 	pcCount int
 	extra     map[string]interface{}
+	syncHook  func(op string, mu value)
 }
 
 // ---------- solver plumbing ----------
@@ -1383,6 +1384,21 @@ func (in *Interp) sliceOp(instr *ssa.Slice, x, lo, hi, max value) value {
 	}
 	switch x := x.(type) {
 	case *Str:
+		if x.Kind != sBytes {
+			// structured string sliced at a position obtained from Index/LastIndex
+			if lo == nil || (lo.(*Term).Const && lo.(*Term).Int() == 0) {
+				if hi == nil {
+					return x
+				}
+				if sp, ok := in.extra["idx:"+hi.(*Term).S].(*splitPoint); ok && sp.s.Key() == x.Key() {
+					return sp.before
+				}
+			} else if hi == nil {
+				if sp, ok := in.extra["idx:"+lo.(*Term).S].(*splitPoint); ok && sp.s.Key() == x.Key() {
+					return sp.after
+				}
+			}
+		}
 		b := in.strBytes(x, "string slicing")
 		l := conc(lo, 0, len(b), "slice low")
 		h := conc(hi, len(b), len(b), "slice high")
